@@ -77,7 +77,22 @@ func init() {
 		// in the middle of its pass (at the identity repair of a pod that lost its
 		// pod-name label) while the second runs a whole pass of the other set
 		if len(s.Cfg.Sets) < 2 || s.Cfg.Workers < 2 || !r.Chance(0.7) {
-			return nil
+			// or: a scale-in and a template change arrive together; the pod to scale in
+			// lingers terminating (graceful deletion) while desired pods are outdated:
+			// scaling comes first, nothing may be taken down for the update yet
+			if !r.Chance(0.5) {
+				return nil
+			}
+			set, sc := s.getSet(0)
+			if set == nil || set.DeletionTimestamp != nil {
+				return nil
+			}
+			d := Desired(specReplicas(set), ModelSlots(set.Annotations))
+			if len(d) < 2 {
+				return nil
+			}
+			return []Step{{K: "pause", A: 0, B: 0}, {K: "settle"}, {K: "scalein", A: 0, B: len(d) - 1}, {K: "template", A: 0, B: (sc.Template + 1 + r.Intn(3)) % 4},
+				{K: "deliverall"}, {K: "worker"}, {K: "finish"}, {K: "deliverall"}, {K: "worker"}, {K: "finish"}, {K: "deliverall"}, {K: "worker"}, {K: "finish"}}
 		}
 		out := []Step{{K: "settle"}}
 		for i := 0; i < 2; i++ {
